@@ -502,7 +502,7 @@ func (e *Engine) verifyFunc(fn *ssa.Function, spec *FuncSpec) (vc *VC, err error
 			vc.cover(fmt.Sprintf("return~%d", k), rt.pc)
 			vc.covers[len(vc.covers)-1].Where = vc.eng.prog.Fset.Position(rt.pos).String()
 		}
-		env2 := &Env{vc: vc, vars: withNamedResults(env.vars, fn.Signature.Results(), rt.vals), cur: rt.st, old: fr.entry, pkg: fn.Pkg, results: rt.vals}
+		env2 := &Env{vc: vc, vars: withNamedResults(env.vars, fn.Signature.Results(), rt.vals), cur: rt.st, old: fr.entry, pkg: fn.Pkg, results: rt.vals, fr: fr}
 		// each postcondition may use the ones listed before it (they are proved separately for the same state)
 		var proved []string
 		for i, en := range spec.Ensures {
